@@ -75,10 +75,13 @@ Lemma tie_neofsid_owner_guard :
   [Fault; Halt [PK33]; Fault].
 Proof. vm_compute. reflexivity. Qed.
 
-(* NOT TIED: the stored value [1] of NeoFSID.nadd is the literal []byte{1} inside
-   AddKey (contracts/neofsid/contract.go:121), not extracted into Gen/Params.v
-   (it should be, as p_neofsid_AddKey_<...> : list Z).  It is not observable
-   through Key (KeysOnly). *)
+(** The stored value: the literal []byte{1} inside AddKey (the integer literals of the
+    function body, Params: p_neofsid_AddKey_intlits). *)
+Lemma tie_neofsid_value :
+  map snd (map_to_list (nrun [NAdd true (OWN (Z.to_nat p_neofsid_ownerSize)) [PK33]]))
+  = [bytes_of_zs p_neofsid_AddKey_intlits].
+Proof. vm_compute. reflexivity. Qed.
+
 
 (** * Configuration (contracts/netmap/contract.go, contracts/neofs/contract.go) *)
 
@@ -149,12 +152,33 @@ Lemma tie_audit_max_key_size :
       [Z.to_nat p_audit_maxKeySize; S (Z.to_nat p_audit_maxKeySize)] = [true; false].
 Proof. vm_compute. auto. Qed.
 
-(* NOT TIED: the offsets of Audit.parse_hdr / read_next (2 + vl + 1, the 8 epoch
-   bytes, offset+2+1, offset+2+1+cidOffset+1, input[1 : 1+ln]) are integer
-   literals inside newAuditHeader and readNext (contracts/audit/contract.go:
-   200-203, 208-222), not named constants; Gen/Params.v has none of them.  They
-   would have to be extracted as expression trees (texpr) of those two
-   functions. *)
+(** The V2 header parser: the offsets of newAuditHeader / readNext are integer literals of
+    the two function bodies (Params: p_audit_newAuditHeader_intlits =
+    [1; 2; 1; 8; 8; 2; 1; 2; 1; 1] for input[1], 2+offset+1, offset+8 (twice), offset+2+1,
+    offset+2+1+cidOffset+1; p_audit_readNext_intlits = [0; 1; 1; 1] for input[0],
+    input[1 : 1+ln], 1+ln).  The tie builds a header whose layout is dictated by those
+    literals and has the model parse it. *)
+Definition lit (l : list Z) (i : nat) : nat := Z.to_nat (nth i l 0%Z).
+Definition pad (n : nat) : bytes := repeat 7%N n.
+Definition hdr_input : bytes :=
+  let l := p_audit_newAuditHeader_intlits in
+  pad (lit l 0) ++ [2%N] ++ pad (lit l 1 - lit l 0 - 1) ++ [40; 41]%N   (* ... version len, version *)
+  ++ pad (lit l 2) ++ take (lit l 3) [5; 0; 0; 0; 0; 0; 0; 0; 99; 99]%N  (* epoch prefix, epoch bytes *)
+  ++ pad (lit l 5 + lit l 6) ++ [3; 21; 22; 23]%N                        (* cid struct prefix, readNext *)
+  ++ pad (lit l 9) ++ [2; 31; 32]%N.                                     (* key wire type, readNext *)
+Lemma tie_audit_header_offsets :
+  let l := p_audit_newAuditHeader_intlits in
+  parse_hdr hdr_input = Halt (mkHdr 5 [21; 22; 23]%N [31; 32]%N) /\
+  length l = 10%nat /\ lit l 4 = lit l 3 /\ lit l 7 = lit l 5 /\ lit l 8 = lit l 6.
+Proof. repeat split; vm_compute; reflexivity. Qed.
+
+Lemma tie_audit_read_next :
+  let r := p_audit_readNext_intlits in
+  let inp := (pad (lit r 0) ++ [2; 8; 9; 10])%N in
+  read_next inp = Halt (take 2 (drop (lit r 1) inp), (lit r 3 + 2)%nat) /\
+  length r = 4%nat /\ lit r 2 = lit r 1.
+Proof. repeat split; vm_compute; reflexivity. Qed.
+
 
 (** * Estimations (contracts/container/contract.go, containerconst/const.go) *)
 
